@@ -132,6 +132,16 @@ func abortEncoder(t *tape.Tape, e *encode.Encoder, a []world.Op, cut int, cause 
 	case causeBytesKept:
 		world.Run(tgt, a[:cut])
 		kept, _ = e.Bytes()
+		if t.Bool() {
+			// the holder of the result does with it what it likes: here it
+			// masks the bytes in place. Bytes hands out the Encoder's own buffer,
+			// so this scribbles over memory the Encoder will recycle — which
+			// must not matter, because Reset rewrites everything from offset 0
+			for i := range kept {
+				kept[i] ^= 0xa5
+			}
+			notes = append(notes, "the kept Bytes result was overwritten in place by its holder")
+		}
 	case causeDecodeErr:
 		b, n := faultedFile(t, a)
 		notes = n
